@@ -58,7 +58,7 @@ def x86_transfer(ev, variant):
     if bs is None:
         raise isa.Undecodable("bytes written are not statically known (source %s)" % ev.extra.get("src_kind"))
     ins, used = isa.decode_x86(bs)
-    sim = isa.simulate_x86(ins)
+    sim = isa.simulate_x86(ins, bs)
     sim["ins"] = ins
     sim["used"] = used
     sim["total"] = len(bs)
@@ -260,7 +260,7 @@ def a64_branch_dest(ev, variant, pc, alloc_bound=None):
     if bs is None:
         raise isa.Undecodable("bytes written are not statically known")
     ins = isa.decode_a64(bs)
-    sim = isa.simulate_a64(ins)
+    sim = isa.simulate_a64(ins, code=bs)
     sim["ins"] = ins
     sim["total"] = len(bs)
     t = sim["transfer"]
